@@ -8,7 +8,8 @@ program, configuration, buffer contents, write effect and alias choice. `kernels
 (by kernel evaluation) over **all** `2^bits` aliasing configurations of every function the translator
 extracted from the working tree into `Gen/Kernels.lean`; together: no translated public function writes a
 caller-owned buffer in any aliasing configuration, and private helpers write only the parameters recorded
-as their summary (which is what their callers were translated with).
+as their summary (which is what their callers were translated with). Module-level mutable state is a
+pseudo-argument of every function that touches it (`kernels_no_global_write`).
 
 (b) `handle_independent`: in the state machine of `Model/Factories.lean` with copying hand-out, after *any*
 sequence of lookups, factory calls, combinators and caller-side mutations, a fresh lookup / factory call
@@ -65,6 +66,18 @@ theorem public_kernels_no_arg_write {β : Type} (k : Kernel) (hk : k ∈ Gen.Ker
   have hc := List.all_eq_true.mp kernels_checked k hk
   have := check_public k hc hp
   exact kernels_no_arg_write k hk S c vals hn j hj (by simp [this])
+
+/-- **kernels_no_global_write**: module-level mutable objects (dicts / lists / sets of the module, `global`
+variables) enter a translated function as pseudo-arguments `nreal ≤ j < nargs`; no translated function — public or
+helper — writes one, in any configuration: nothing is cached or accumulated between calls. -/
+theorem kernels_no_global_write {β : Type} (k : Kernel) (hk : k ∈ Gen.Kernels.all) (S : Sem β) (c : Nat)
+    (vals : List β) (hn : vals.length = k.nargs) (j : Nat) (hj1 : k.nreal ≤ j) (hj2 : j < k.nargs) :
+    (run S c k.ir (initState vals)).heap[j]? = vals[j]? := by
+  have hc := List.all_eq_true.mp kernels_checked k hk
+  apply kernels_no_arg_write k hk S c vals hn j hj2
+  intro hmem
+  have := check_globals k hc j hmem
+  omega
 
 /-- non-vacuity: the table is not empty and contains public functions with aliasing conversions -/
 example : ∃ k ∈ Gen.Kernels.all, k.isPublic = true ∧ 0 < k.bits := by decide +kernel
